@@ -57,6 +57,7 @@ def required_cells(tier):
                 "history:estimate-then-compute": 1,
                 "history:factory-results-adapted-in-place": 1,
                 "history:object-reused-inside-one-operation": 2,
+                "history:other-systems-in-between": 1,
                 "history:process-tensor-edited-after-use": 1,
                 "attr:alpha": 1,
                 "attr:temperature": 1, "attr:cutoff": 1, "attr:zeta": 1,
@@ -685,6 +686,44 @@ def run_history(case):
                            float(np.abs(runs[1] - runs[0]).max())))
         return runs[0]
 
+    def op_ptlist(ob, pt):
+        """The list of process tensors handed to PtTebd belongs to the
+        caller: it is not rewritten, and re-using it for the next
+        configuration after the object was set up changes nothing."""
+        chain = oqupy.SystemChain([d, d])
+        chain.add_site_hamiltonian(0, h.copy())
+        chain.add_nn_hamiltonian(0, o.copy(), o.copy())
+        outs = []
+        for reuse in (False, True):
+            lst = [pt, None]
+            t_ = oqupy.PtTebd(oqupy.AugmentedMPS([rho.copy(), rho.copy()]),
+                              chain, lst, ob["tparams"],
+                              dynamics_sites=[0, 1])
+            if lst[0] is not pt or lst[1] is not None or len(lst) != 2:
+                reuse_devs.append(("PtTebd rewrote the caller's list of "
+                                   "process tensors", 1.0))
+            if reuse:
+                lst[0], lst[1] = None, None     # the caller moves on
+            r = t_.compute(n, progress_type="silent")
+            outs.append(np.array([r["dynamics"][0].states,
+                                  r["dynamics"][1].states]))
+        reuse_devs.append(("PtTebd whose caller re-used the list of process "
+                           "tensors after construction",
+                           float(np.abs(outs[1] - outs[0]).max())))
+        return outs[0]
+
+    def op_scan5(ob, pt):
+        """A scan over five other systems with dissipators in between (the
+        shared system must be unaffected by what else was computed)."""
+        acc = 0.0
+        for k in range(5):
+            hk_ = h * (1.0 + 0.1 * (k + 1))
+            sk_ = oqupy.System(hk_, [0.05 * (k + 1)], [lop.copy()])
+            acc += float(np.abs(sk_.liouvillian()).sum())
+            oqupy.compute_dynamics(sk_, rho.copy(), dt=dt, num_steps=1,
+                                   progress_type="silent")
+        return np.zeros(1)
+
     def op_bathdyn(ob, pt):
         """TwoTimeBathCorrelations asked for an early time first and a later
         time afterwards answers the later question like a fresh object."""
@@ -762,7 +801,8 @@ def run_history(case):
         return b"".join(np.ascontiguousarray(x, dtype=complex).tobytes()
                         for x in parts)
 
-    ops = {"chainctl": op_chainctl, "bathdyn": op_bathdyn,
+    ops = {"ptlist": op_ptlist, "scan5": op_scan5,
+           "chainctl": op_chainctl, "bathdyn": op_bathdyn,
            "factory": op_factory, "ptedit": op_ptedit, "guess": op_guess, "peek": op_peek, "tempo": op_tempo, "dyn": op_dyn, "corr": op_corr,
            "grad": op_grad, "tebd": op_tebd, "pt": op_pt, "eta": op_eta,
            "ctl": op_ctl, "ctl_shift": op_ctl_shift, "ctl_dt": op_ctl_dt}
@@ -777,7 +817,10 @@ def run_history(case):
     if i % 4 == 0:
         seq[0] = "factory"
     if i % 4 == 1:
-        seq[-1] = ["chainctl", "bathdyn"][(i // 4) % 2]
+        seq[-1] = ["chainctl", "bathdyn", "ptlist"][(i // 4) % 3]
+    if i % 4 == 3 and len(seq) >= 4:
+        # use the shared system, scan five others, use it again
+        seq[1], seq[2], seq[3] = "dyn", "scan5", "dyn"
     if i % 4 == 3:
         # estimate first, compute afterwards
         seq[0] = "guess"
@@ -788,6 +831,18 @@ def run_history(case):
         ctl = ["ctl", "ctl_shift", "ctl_dt"]
         k0 = int(rng.integers(0, 3))
         seq[0], seq[-1] = ctl[k0], ctl[(k0 + 1 + int(rng.integers(0, 2))) % 3]
+    forced = {0: ["factory", "dyn", "ptedit", "dyn"],
+              1: ["peek", "dyn", "peek", "chainctl"],
+              2: ["ctl", "peek", "ctl_dt", "ptedit", "grad"],
+              3: ["guess", "dyn", "scan5", "dyn"],
+              4: ["factory", "ctl", "ctl_shift", "tebd"],
+              5: ["peek", "tempo", "peek", "bathdyn"],
+              6: ["ctl_shift", "peek", "ctl_dt", "eta", "corr", "ptedit"],
+              7: ["guess", "dyn", "scan5", "dyn", "ptlist"]}
+    if i in forced:
+        # the first eight histories are fixed (every kind of operation is
+        # met in every run); the others are seeded random sequences
+        seq = forced[i]
     shared = fresh()
     shared_pt = make_pt(shared)
     violations = []
@@ -852,6 +907,8 @@ def run_history(case):
                         f"modified in place by its caller (changed by "
                         f"{bad[0][2]:.3g}; {len(bad)} factory calls affected)",
                 "mechanism": "stale-state", "detail": {"seq": seq}})
+    if "scan5" in seq:
+        cells.append("history:other-systems-in-between")
     if seq[0] == "guess":
         cells.append("history:estimate-then-compute")
     if "peek" in seq[:-1]:
